@@ -44,6 +44,16 @@ Spec == Init /\ [][Next]_<<node, g, last>>
 View == <<node, g>>
 C15a == Inv_C15a(g)
 C15b == Inv_C15b(g)
+\* C15r ("... survives any number of heartbeats and restarts", "... also after a restart"): in every
+\* reachable state a signer restored from a copy of the store has the same channels (phase, forget flag,
+\* monitor heights, stub height), the same id high-water mark, store entries and tracker listeners as the
+\* running one.  rs is the harness's observation of such a restored signer; a restore that returned an error
+\* or panicked (rs.failed) leaves no signer at all and counts as unequal.
+RestartEq(nd) == /\ ~nd.rs.failed
+                 /\ nd.rs.mark = nd.pre.mark
+                 /\ \A d \in 1..K.maxd : \A f \in ChanFields : nd.rs.chans[d][f] = nd.pre.chans[d][f]
+                 /\ nd.rs.pst = nd.pre.pst /\ nd.rs.lis = nd.pre.lis
+C15r == Nodes[node + 1].pre.dead \/ RestartEq(Nodes[node + 1])
 
 ---------------------------------------------------------------------------
 \* (no set of ALL edges is ever built)
@@ -88,6 +98,15 @@ KeptAtDepth(x) == EdgesWhere(LAMBDA nd, e : e[1] >= 0 /\ Reqs[e[2]].op = "Heartb
                   /\ Nodes[e[1] + 1].pre.chans[d].ph = "ready")
 RefusedNew  == EdgesWhere(LAMBDA nd, e : Reqs[e[2]].op = "New" /\ e[3] = 0)
 Tainted     == {i \in DOMAIN Nodes : Nodes[i].r0 = 0 /\ ~Nodes[i].pre.dead}
+RestartBad  == {i \in DOMAIN Nodes : ~Nodes[i].pre.dead /\ ~RestartEq(Nodes[i])}
+RestoreFails == {i \in DOMAIN Nodes : ~Nodes[i].pre.dead /\ Nodes[i].rs.failed}
+\* one heartbeat that prunes a ready channel and a stub together
+MixedPrune  == EdgesWhere(LAMBDA nd, e : e[1] >= 0 /\ Reqs[e[2]].op = "Heartbeat" /\
+                  (\E d \in 1..K.maxd : nd.pre.chans[d].ph = "ready" /\ Nodes[e[1] + 1].pre.chans[d].ph = "none") /\
+                  (\E d \in 1..K.maxd : nd.pre.chans[d].ph = "stub" /\ Nodes[e[1] + 1].pre.chans[d].ph = "none"))
+MixedPruneStubAbove == EdgesWhere(LAMBDA nd, e : e[1] >= 0 /\ Reqs[e[2]].op = "Heartbeat" /\
+                  \E d, x \in 1..K.maxd : d < x /\ nd.pre.chans[d].ph = "ready" /\ Nodes[e[1] + 1].pre.chans[d].ph = "none"
+                                          /\ nd.pre.chans[x].ph = "stub" /\ Nodes[e[1] + 1].pre.chans[x].ph = "none")
 
 Report == [ nodes |-> Len(Nodes), edges |-> NEdges, root_ok |-> RootOk,
             n_divergences |-> Cardinality(Divergent),
@@ -98,6 +117,10 @@ Report == [ nodes |-> Len(Nodes), edges |-> NEdges, root_ok |-> RootOk,
             kept_forgotten_edges |-> Cardinality(KeptForgotten),
             kept_at_depth_Dm1 |-> Cardinality(KeptAtDepth(K.D - 1)),
             refused_new |-> Cardinality(RefusedNew),
-            restart_unequal_states |-> Cardinality(Tainted) ]
+            restart_unequal_states |-> Cardinality(Tainted),
+            restart_bad_states |-> Cardinality(RestartBad),
+            restore_fails_states |-> Cardinality(RestoreFails),
+            mixed_prune_edges |-> Cardinality(MixedPrune),
+            mixed_prune_stub_above_edges |-> Cardinality(MixedPruneStubAbove) ]
 ASSUME JsonSerialize(IOEnv.LC_REPORT, Report)
 =============================================================================
